@@ -31,6 +31,7 @@ class Knobs:
         self.boolean_explicit = False
         self.card_for_all = False         # write every relation with a cardinality keyword
         self.tight = False                # no spaces around binary operators
+        self.namespace_root = False       # namespace named after the root feature
         self.__dict__.update(kw)
         self.r = r
 
@@ -190,7 +191,8 @@ def constraint(t, k, parent_prec=0):
 def emit(spec, k):
     out = []
     if k.namespace:
-        out.append("namespace " + ident("Shop", k))
+        # a common convention: the namespace is named after the root feature
+        out.append("namespace " + ident(spec["root"]["name"] if getattr(k, "namespace_root", False) else "Shop", k))
     if k.include:
         out.append("include")
         out.append(k.indent + "Boolean.group-cardinality")
